@@ -54,7 +54,10 @@ def _by_length(body, cl, cuts, lf_only, keep_alive_hdr, odd_i=0):
     if odd is not None:
         # one field whose value contains a byte that str.splitlines() treats as a line boundary: still ONE field (lines end in LF only)
         head = head + b'X-Odd: a' + bytes([odd]) + b'Content-Length: 9' + eol
-    head = head + b'Content-Length: ' + str(cl).encode() + eol
+    if keep_alive_hdr:
+        head = head + b'Content-Length:' + eol + b'\t' + str(cl).encode() + eol       # the framing field itself folded, continuation led by a TAB
+    else:
+        head = head + b'Content-Length: ' + str(cl).encode() + eol
     if keep_alive_hdr:
         head = head + b'Connection: keep-alive' + eol + b'X-Fold: a' + eol + b' \t' + eol     # white-space-only continuation line
     head = head + eol
